@@ -36,16 +36,44 @@ func c07Gadget(api frontend.API, in []frontend.Variable) []frontend.Variable {
 }
 
 type c07Replay struct {
-	Kind string   `json:"kind"`
-	Mode int      `json:"mode"`
-	In   []string `json:"in"`
-	Bits uint64   `json:"bits,omitempty"`
-	Prog *glProg  `json:"program,omitempty"`
+	Kind  string   `json:"kind"`
+	Mode  int      `json:"mode"`
+	In    []string `json:"in"`
+	Bits  uint64   `json:"bits,omitempty"`
+	Prog  *glProg  `json:"program,omitempty"`
+	CMask uint64   `json:"constant_operand_mask,omitempty"` // bit i: operand i is a circuit constant, not a witness variable
+}
+
+// maskFn turns the operands selected by cmask into circuit constants (gl.NewVariable(c) style).
+func maskFn(fn gad.Fn, in []*big.Int, cmask uint64) (gad.Fn, []*big.Int) {
+	if cmask == 0 {
+		return fn, in
+	}
+	var rest []*big.Int
+	for i := range in {
+		if (cmask>>uint(i))&1 == 0 {
+			rest = append(rest, in[i])
+		}
+	}
+	return func(api frontend.API, vin []frontend.Variable) []frontend.Variable {
+		full := make([]frontend.Variable, len(in))
+		k := 0
+		for i := range in {
+			if (cmask>>uint(i))&1 == 1 {
+				full[i] = new(big.Int).Set(in[i])
+			} else {
+				full[i] = vin[k]
+				k++
+			}
+		}
+		return fn(api, full)
+	}, rest
 }
 
 // c07CheckOps returns "" or a description of the first wrong result.
-func c07CheckOps(m eng.Mode, a, b, c uint64) (string, string) {
-	res, out := gad.Run(modeOpt(m), bigs(a, b, c), c07Gadget)
+func c07CheckOps(m eng.Mode, a, b, c uint64, cmask uint64) (string, string) {
+	fn, rest := maskFn(c07Gadget, bigs(a, b, c), cmask)
+	res, out := gad.Run(modeOpt(m), rest, fn)
 	if res.Outcome != eng.Accept {
 		return "verdict", fmt.Sprintf("honest canonical operands (%d,%d,%d) not accepted: %s", a, b, c, fmtRes(res))
 	}
@@ -98,12 +126,13 @@ func c07ReduceGadget(bits uint64) gad.Fn {
 
 // c07CheckReduce: x < 2^bits*p must be accepted and reduced; any x must never be accepted with
 // a wrong residue (with honest hints).
-func c07CheckReduce(m eng.Mode, x *big.Int, bits uint64) (string, string) {
+func c07CheckReduce(m eng.Mode, x *big.Int, bits uint64, cmask uint64) (string, string) {
 	w := bits
 	if w == 0 {
 		w = 144
 	}
-	res, out := gad.Run(modeOpt(m), []*big.Int{x}, c07ReduceGadget(bits))
+	fn, rest := maskFn(c07ReduceGadget(bits), []*big.Int{x}, cmask)
+	res, out := gad.Run(modeOpt(m), rest, fn)
 	limit := new(big.Int).Mul(pow2(uint(w)), bigP)
 	want := new(big.Int).Mod(x, bigP)
 	if x.Cmp(limit) < 0 {
@@ -140,6 +169,7 @@ type glProg struct {
 	Mode    int      `json:"mode"`
 	Inputs  []uint64 `json:"inputs"`
 	Ops     []glOp   `json:"ops"`
+	CMask   uint64   `json:"constant_input_mask,omitempty"`
 }
 
 type progVal struct {
@@ -311,8 +341,7 @@ var progSystems = map[string]bool{}
 
 func runProg(p glProg) (string, string) {
 	want := evalProg(p)
-	in := u64s(p.Inputs)
-	fn := progFn(p)
+	fn, in := maskFn(progFn(p), u64s(p.Inputs), p.CMask)
 	switch p.Backend {
 	case "eng":
 		res, out := gad.Run(eng.Options{Mode: eng.Mode(p.Mode)}, in, fn)
@@ -350,7 +379,7 @@ func runProg(p glProg) (string, string) {
 func TestC07(t *testing.T) {
 	r := rec.New("C07")
 	defer r.Flush()
-	r.Rule("operand triples over Goldilocks: all 7^3 combinations of the edge set {0,1,2^32-1,2^32,2^63,p-2^32,p-1} (deterministic) plus rapid-generated triples (edges mixed with uniform), each evaluated through every base-field gadget (Add,Sub,Mul,MulAdd,*NoReduce,Reduce,Inverse) in one engine run on a drawn range-check flavour and compared with native uint64 arithmetic; Reduce/ReduceWithMaxBits inputs drawn from [0,2^b*p) (must be accepted and reduced) and from [2^b*p, r) (must not be mis-reduced).  Non-trivial = at least one operand is an edge value, or the integer a*b+c crosses a multiple of 2^64, or the reduce input is >= p.  Distinct = (operands, flavour).  (4) straight-line programs of 2..12 gadget calls over a pool of 2..5 inputs and all earlier results (operands biased to recent results so values are reused; NoReduce growth bounded below 2^200), executed on the engine and compiled to R1CS and SCS, every pool value compared with integer arithmetic; non-trivial program = some intermediate result is used by more than one later call.")
+	r.Rule("operand triples over Goldilocks: all 7^3 combinations of the edge set {0,1,2^32-1,2^32,2^63,p-2^32,p-1} (deterministic) plus rapid-generated triples (edges mixed with uniform), each evaluated through every base-field gadget (Add,Sub,Mul,MulAdd,*NoReduce,Reduce,Inverse) in one engine run on a drawn range-check flavour and compared with native uint64 arithmetic; Reduce/ReduceWithMaxBits inputs drawn from [0,2^b*p) (must be accepted and reduced) and from [2^b*p, r) (must not be mis-reduced).  Non-trivial = at least one operand is an edge value, or the integer a*b+c crosses a multiple of 2^64, or the reduce input is >= p.  Distinct = (operands, flavour).  (4) straight-line programs of 2..12 gadget calls over a pool of 2..5 inputs and all earlier results (operands biased to recent results so values are reused; NoReduce growth bounded below 2^200), executed on the engine and compiled to R1CS and SCS, every pool value compared with integer arithmetic; non-trivial program = some intermediate result is used by more than one later call.  (5) in every group a fraction of the cases supplies some or all operands as circuit constants instead of witness variables (the engine reports them through Compiler().ConstantValue exactly as gnark's builders do; programs also compiled): the results must not depend on how an operand is supplied.")
 	r.Assume("engine semantics of frontend.API (validated against gnark's own engine and compiled R1CS/SCS in the C06 check)", "honest hint functions as shipped")
 
 	var rp c07Replay
@@ -364,11 +393,11 @@ func TestC07(t *testing.T) {
 		}
 		var k, d string
 		if rp.Kind == "ops" {
-			k, d = c07CheckOps(eng.Mode(rp.Mode), in[0].Uint64(), in[1].Uint64(), in[2].Uint64())
+			k, d = c07CheckOps(eng.Mode(rp.Mode), in[0].Uint64(), in[1].Uint64(), in[2].Uint64(), rp.CMask)
 		} else if rp.Kind == "program" {
 			k, d = runProg(*rp.Prog)
 		} else {
-			k, d = c07CheckReduce(eng.Mode(rp.Mode), in[0], rp.Bits)
+			k, d = c07CheckReduce(eng.Mode(rp.Mode), in[0], rp.Bits, rp.CMask)
 		}
 		r.Case("replay", true, fmt.Sprint(rp), func() any { return rp })
 		if k != "" {
@@ -386,15 +415,21 @@ func TestC07(t *testing.T) {
 		}
 		return false
 	}
-	doOps := func(tb rec.TB, m eng.Mode, a, b, c uint64, class string) {
+	doOps := func(tb rec.TB, m eng.Mode, a, b, c uint64, class string, cmask uint64) {
 		hi := new(big.Int).Mul(bu(a), bu(b))
 		hi.Add(hi, bu(c))
 		nt := isEdge(a) || isEdge(b) || isEdge(c) || hi.BitLen() > 64
-		r.Case(class, nt, fmt.Sprint(m, a, b, c), func() any {
-			return map[string]any{"mode": m.String(), "a": a, "b": b, "c": c}
+		if cmask != 0 {
+			class += "/constant-operands"
+		}
+		r.Case(class, nt, fmt.Sprint(m, a, b, c, cmask), func() any {
+			return map[string]any{"mode": m.String(), "a": a, "b": b, "c": c, "constant_operand_mask": cmask}
 		})
-		if k, d := c07CheckOps(m, a, b, c); k != "" {
-			r.Fail(tb, "C07/"+k, c07Replay{Kind: "ops", Mode: int(m), In: strs(bigs(a, b, c))}, "%s", d)
+		if k, d := c07CheckOps(m, a, b, c, cmask); k != "" {
+			if cmask != 0 {
+				d = fmt.Sprintf("[operands with mask bit set in %#b given as circuit constants] %s", cmask, d)
+			}
+			r.Fail(tb, "C07/"+k, c07Replay{Kind: "ops", Mode: int(m), In: strs(bigs(a, b, c)), CMask: cmask}, "%s", d)
 		}
 	}
 
@@ -408,7 +443,10 @@ func TestC07(t *testing.T) {
 					if i%3 == 1 {
 						m = eng.ModePlain
 					}
-					doOps(t, m, a, b, c, "edge-triple")
+					doOps(t, m, a, b, c, "edge-triple", 0)
+					if i%4 == 0 {
+						doOps(t, m, a, b, c, "edge-triple", uint64(1+(i/4)%7))
+					}
 				}
 				i++
 			}
@@ -418,7 +456,11 @@ func TestC07(t *testing.T) {
 	// 2. random triples
 	rapidCheck(t, "ops", tierN(12000, 300000), func(rt *rapid.T) {
 		a, b, c := genGL().Draw(rt, "a"), genGL().Draw(rt, "b"), genGL().Draw(rt, "c")
-		doOps(rt, genMode().Draw(rt, "mode"), a, b, c, "random-triple")
+		var cmask uint64
+		if rapid.IntRange(0, 5).Draw(rt, "const") == 0 {
+			cmask = uint64(rapid.IntRange(1, 7).Draw(rt, "cmask"))
+		}
+		doOps(rt, genMode().Draw(rt, "mode"), a, b, c, "random-triple", cmask)
 	})
 
 	// 3. reduce
@@ -440,11 +482,19 @@ func TestC07(t *testing.T) {
 			x = genBigBelow(limit).Draw(rt, "x")
 		}
 		m := genMode().Draw(rt, "mode")
-		r.Case(class, x.Cmp(bigP) >= 0, fmt.Sprint(m, bits, x), func() any {
-			return map[string]any{"mode": m.String(), "bits": bits, "x": x.String()}
+		var cmask uint64
+		if rapid.IntRange(0, 4).Draw(rt, "const") == 0 {
+			cmask = 1
+			class += "/constant-operand"
+		}
+		r.Case(class, x.Cmp(bigP) >= 0, fmt.Sprint(m, bits, x, cmask), func() any {
+			return map[string]any{"mode": m.String(), "bits": bits, "x": x.String(), "constant_operand": cmask == 1}
 		})
-		if k, d := c07CheckReduce(m, x, bits); k != "" {
-			r.Fail(rt, "C07/"+k, c07Replay{Kind: "reduce", Mode: int(m), In: strs([]*big.Int{x}), Bits: bits}, "%s", d)
+		if k, d := c07CheckReduce(m, x, bits, cmask); k != "" {
+			if cmask != 0 {
+				d = "[operand given as a circuit constant] " + d
+			}
+			r.Fail(rt, "C07/"+k, c07Replay{Kind: "reduce", Mode: int(m), In: strs([]*big.Int{x}), Bits: bits, CMask: cmask}, "%s", d)
 		}
 	})
 
@@ -453,6 +503,9 @@ func TestC07(t *testing.T) {
 		p := genProg().Draw(rt, "program")
 		p.Backend = rapid.SampledFrom([]string{"eng", "r1cs", "r1cs", "scs"}).Draw(rt, "backend")
 		p.Mode = rapid.IntRange(0, 1).Draw(rt, "mode")
+		if rapid.IntRange(0, 3).Draw(rt, "const") == 0 {
+			p.CMask = uint64(rapid.IntRange(1, 1<<len(p.Inputs)-1).Draw(rt, "cmask"))
+		}
 		reuse := 0
 		used := map[int]int{}
 		for _, o := range p.Ops {
@@ -465,7 +518,11 @@ func TestC07(t *testing.T) {
 				reuse++
 			}
 		}
-		r.Case("program/"+p.Backend, reuse > 0, fmt.Sprint(p), func() any { return p })
+		pclass := "program/" + p.Backend
+		if p.CMask != 0 {
+			pclass += "/constant-inputs"
+		}
+		r.Case(pclass, reuse > 0, fmt.Sprint(p), func() any { return p })
 		if k, d := runProg(p); k != "" {
 			pp := p
 			r.Fail(rt, "C07/"+k, c07Replay{Kind: "program", Prog: &pp}, "%s", d)
